@@ -11,6 +11,7 @@ from harness import lab
 from harness.common import Ctx, driver, pmap, parse_rat, use_repo
 
 DT = 600
+EPOCH_OFF = 946684793      # seconds from 1970-01-01T00:00:07 to the time origin of the scenarios
 _worker = {}
 
 
@@ -49,6 +50,7 @@ def run_case(c):
             rows.append(dict(release_time=sg * r2 * DT, X=6.5, Y=5.25, Z=1.0, mult=1))
         lab.write_release(d / "release.rls", rows)
         conf = lab.base_conf(d, start, stop, DT, c["period"] * DT, os.path.join(fd, "forcing.nc"),
+                             reference=lab.tstr(-EPOCH_OFF) if c.get("epoch") else None,
                              reversed_=c["rev"], numrec=c["numrec"], layout=c["layout"],
                              pvars=dict(release_time="time") if c["pvars"] else None,
                              out_pvars=("release_time",) if c["pvars"] else (),
@@ -82,6 +84,8 @@ def run_case(c):
 def model_request(c):
     sg = -1 if c["rev"] else 1
     ref_off = (c["nsteps"] * DT + c["resid"]) if c["rev"] else 0   # reference = min(start, stop)
+    if c.get("epoch"):
+        ref_off = EPOCH_OFF                                          # an explicit reference time decades before the run
     snaps = []
     r2 = second_release_step(c["nsteps"])
     r1 = first_release_step(c)
@@ -159,7 +163,7 @@ def cases(ctx: Ctx):
                                 continue
                             resid = 0 if k % 4 else DT // 2
                             out.append(dict(nsteps=ns, period=p, numrec=nr, layout=layout, rev=rev, pvars=pv,
-                                            resid=resid, outname=names[k % 3] if nr else "out.nc", late=bool(k % 5 == 3)))
+                                            resid=resid, outname=names[k % 3] if nr else "out.nc", late=bool(k % 5 == 3), epoch=bool(k % 7 == 2)))
     return out
 
 
@@ -185,7 +189,7 @@ def run(ctx: Ctx):
             # the statement itself, without the model: one record for each output time
             # start + k*period in [start, stop)
             sg = -1 if c["rev"] else 1
-            ref_off = (c["nsteps"] * DT + c["resid"]) if c["rev"] else 0
+            ref_off = EPOCH_OFF if c.get("epoch") else ((c["nsteps"] * DT + c["resid"]) if c["rev"] else 0)
             expect = [float(sg * k_ * c["period"] * DT + ref_off) for k_ in range(0, c["nsteps"] + 2)
                       if k_ * c["period"] * DT < c["nsteps"] * DT + c["resid"]]
             have = [t for f in g["files"] for t in f.get("time", [])]
